@@ -14,6 +14,8 @@ Usage:
 """
 import collections
 import contextlib
+import io
+import pickle
 import sys
 import _thread
 import threading as _rt
@@ -270,12 +272,14 @@ class Scheduler:
         saved = [
             (strax.mailbox, "threading", strax.mailbox.threading),
             (tm, "futures", tm.futures),
+            (tm, "ProcessPoolExecutor", tm.ProcessPoolExecutor),
             (su, "ThreadPoolExecutor", su.ThreadPoolExecutor),
             (su, "wait", su.wait),
             (sc, "wait", sc.wait),
         ]
         strax.mailbox.threading = SHIM_THREADING
         tm.futures = SHIM_FUTURES
+        tm.ProcessPoolExecutor = SimProcessExecutor
         su.ThreadPoolExecutor = CtlExecutor
         su.wait = ctl_wait
         sc.wait = ctl_wait
@@ -680,6 +684,61 @@ class CtlExecutor:
     def __exit__(self, *a):
         self.shutdown(wait=True)
         return False
+
+
+# ---- simulated process pool ------------------------------------------------------------------------------
+# A real ProcessPoolExecutor is outside the scheduler's control.  What distinguishes it semantically from a thread
+# pool is the process boundary: the submitted callable (a bound plugin method, i.e. the plugin, its inlined
+# sub-plugins and forked savers) and its arguments are pickled, the job runs on a COPY, and only the pickled
+# result comes back - state changes made by the job are lost.  SimProcessExecutor reproduces exactly that on a
+# controlled worker thread, so that strax's multiprocessing path (ParallelSourcePlugin: inlined plugins, forked
+# savers writing per-chunk metadata files that close() collects) runs deterministically under generated schedules.
+DYNAMIC_CLASSES = {}  # (token, class name) -> class; filled by vf.graphs.build_classes (classes made with type())
+
+
+def _lookup_dynamic(token, name):
+    return DYNAMIC_CLASSES[(token, name)]
+
+
+class _Pickler(pickle.Pickler):
+    def reducer_override(self, obj):
+        if isinstance(obj, type):
+            tok = obj.__dict__.get("_vf_token")
+            if tok is not None and DYNAMIC_CLASSES.get((tok, obj.__name__)) is obj:
+                return _lookup_dynamic, (tok, obj.__name__)
+        return NotImplemented
+
+
+def process_boundary(obj):
+    """What arrives on the other side of a process boundary: a pickled-and-unpickled copy."""
+    buf = io.BytesIO()
+    _Pickler(buf, protocol=pickle.HIGHEST_PROTOCOL).dump(obj)
+    return pickle.loads(buf.getvalue())
+
+
+class SimProcessExecutor(CtlExecutor):
+    crossings = 0
+
+    def submit(self, fn, *args, **kwargs):
+        payload = process_boundary((fn, args, kwargs))  # pickling errors surface at submit, as with a real pool
+        SimProcessExecutor.crossings += 1
+        return super().submit(self._job, payload)
+
+    @staticmethod
+    def _job(payload):
+        fn, args, kwargs = payload
+        try:
+            res = fn(*args, **kwargs)
+        except SchedAbort:
+            raise
+        except BaseException as e:  # noqa
+            try:
+                e2 = process_boundary(e)
+                e2.__traceback__ = e.__traceback__  # keep the frames for bucketing (a real pool adds them as text)
+            except Exception:  # noqa
+                e2 = e
+            raise e2
+        return process_boundary(res)
 
 
 SHIM_FUTURES = types.SimpleNamespace(
